@@ -1,7 +1,8 @@
 #!/bin/bash
 # run every registered check of a tier on the current tree; print one line per property
 tier="${1:-quick}"
-cd /verif
+ROOT="$(cd "$(dirname "$(readlink -f "$0")")/.." && pwd)"
+cd "$ROOT"
 fail=0
 for id in $(python3 -c "import json;print(' '.join(c['property_id'] for c in json.load(open('MANIFEST.json'))['checks']))"); do
   start=$(date +%s)
